@@ -844,6 +844,13 @@ func (h *fsHandler) handleRequest(c context.Context, ctx *RequestContext) {
 				"Allow write access to the directory with this file in order to improve hertz performance", filePath)
 			mustCompress = false
 			ff, err = h.openFSFile(filePath, mustCompress)
+		} else if mustCompress && err != nil && err != errDirIndexRequired {
+			// whatever else keeps the compressed copy from being opened or created (its name
+			// exceeds the file name limit, no space left, read-only file system...): the file
+			// itself decides the answer, it is served as it is or reported missing
+			mustCompress = false
+			fileCache = h.cache
+			ff, err = h.openFSFile(filePath, mustCompress)
 		}
 		if err == errDirIndexRequired {
 			ff, err = h.openIndexFile(ctx, filePath, mustCompress)
